@@ -10,27 +10,40 @@ CONSTANTS
  NaiveMaxP = %(naive)d
  Mode = "%(mode)s"
  CheckArith = %(arith)s
+ SortedBases = %(sorted)s
 INVARIANTS %(inv)s
 CHECK_DEADLOCK FALSE
 """
 THEOREMS = "BlockIsDefinition Sound Complete Shape Elements Emit"
 def cfg(name, **kw):
-    d = dict(maxp=47, maxq=23, maxk=7, margin=4, variants="V_small", naive=13, mode="nbr", inv=THEOREMS, arith="FALSE")
+    d = dict(maxp=47, maxq=23, maxk=7, margin=4, variants="A_one", naive=0, mode="acc", inv=THEOREMS, arith="FALSE", sorted="TRUE")
     d.update(kw)
     open(name + ".cfg", "w").write(base % d)
 
+Q = dict(maxp=47, maxq=23, maxk=7)          # quick box
+QN = dict(maxp=31, maxq=15, maxk=7)         # quick: well-formed sets up to p = 31 get their neighbourhoods explored
+T = dict(maxp=90, maxq=45, maxk=10)         # thorough box
 # oracle strings needed for the canonical generators of a box (printed only; repeated until none is missing)
-cfg("MC_Group_needs_q", variants="V_canon", mode="needs", inv="Emit")
-cfg("MC_Group_needs_t", variants="V_canon", mode="needs", inv="Emit", maxp=90, maxq=45, maxk=10)
-# quick: box p<=47, q<=23, k<=7, generators -4..p+4
-cfg("MC_Group_q_small", variants="V_small", arith="TRUE")                       # dlog, qr, pqg, com n=1: blocks + neighbourhoods
-cfg("MC_Group_q_pqgh", variants="V_pqgh", naive=11)                # two-generator classes: blocks + neighbourhoods
-cfg("MC_Group_q_com", variants="V_com2v", maxp=23, maxq=11, naive=5)   # n=2: neighbourhoods up to p=23
-cfg("MC_Group_q_comacc", variants="V_com2v", mode="acc", naive=0)      # n=2: accepting sets of the whole box
-# thorough: box p<=90, q<=45, k<=10
-T = dict(maxp=90, maxq=45, maxk=10)
-cfg("MC_Group_t_small", variants="V_small", naive=23, arith="TRUE", **T)
-cfg("MC_Group_t_pqgh", variants="V_pqgh", naive=17, **T)
-cfg("MC_Group_t_com", variants="V_com2v", naive=7, maxp=47, maxq=23, maxk=7)
-cfg("MC_Group_t_comacc", variants="V_com2v", mode="acc", naive=0, **T)
-cfg("MC_Group_t_com3", variants="V_com3", maxp=23, maxq=11, maxk=7, naive=0)
+cfg("MC_Group_needs_q", variants="V_canon", mode="needs", inv="Emit", **Q)
+cfg("MC_Group_needs_t", variants="V_canon", mode="needs", inv="Emit", **T)
+# member sets for the element checks: every p >= 1, every q of the box (also groups that are not well-formed)
+cfg("MC_Group_q_elem", variants="E_one", mode="elem", inv="Emit", **Q)
+cfg("MC_Group_t_elem", variants="E_one", mode="elem", inv="Emit", **T)
+# accepting sets of the whole box, block by block; small blocks are also computed by filtering (BlockIsDefinition)
+cfg("MC_Group_q_acc1", variants="A_one", naive=13, arith="TRUE", **Q)
+cfg("MC_Group_q_acc2", variants="A_two", naive=11, **Q)
+cfg("MC_Group_q_acc3", variants="A_com", naive=5, **Q)
+cfg("MC_Group_t_acc1", variants="A_one", naive=23, arith="TRUE", **T)
+cfg("MC_Group_t_acc2", variants="A_two", naive=17, **T)
+cfg("MC_Group_t_acc3", variants="A_com", naive=7, **T)
+cfg("MC_Group_t_acc4", variants="A_com3", naive=5, maxp=47, maxq=23, maxk=7)
+# state machine: well-formed set -> single-field corruption, all theorems in every state, neighbourhoods printed
+cfg("MC_Group_q_nbr1", variants="N_one", mode="nbr", **Q)
+cfg("MC_Group_q_nbr2", variants="N_com1", mode="nbr", **QN)
+cfg("MC_Group_q_nbr3", variants="N_two", mode="nbr", **QN)
+cfg("MC_Group_q_nbr4", variants="N_com", mode="nbr", maxp=23, maxq=11, maxk=7)
+cfg("MC_Group_t_nbr1", variants="N_one", mode="nbr", **T)
+cfg("MC_Group_t_nbr2", variants="N_com1", mode="nbr", sorted="FALSE", **Q)
+cfg("MC_Group_t_nbr3", variants="N_two", mode="nbr", sorted="FALSE", **Q)
+cfg("MC_Group_t_nbr4", variants="N_com", mode="nbr", maxp=47, maxq=23, maxk=7)
+cfg("MC_Group_t_nbr5", variants="N_com3", mode="nbr", maxp=23, maxq=11, maxk=7)
